@@ -380,7 +380,24 @@ def prog_cases(tier):
     size = 80
     for i in range(0, len(progs), size):
         out.append({"kind": "prog", "name": "prog/%d" % i, "progs": progs[i : i + size]})
+    for g in XPROGS:
+        out.append({"kind": "xprog", "name": "xprog/" + g["name"], "spec": g})
     return out
+
+
+# programs with a 0-d / 1-d tensor used as an exponent (fan-out of the exponent included). The library decides `** 1`, `** 2`
+# shortcuts by equality tests, so the reference forward is written against NumPy (independent of the branch taken) and the
+# equality paths are claimed too (the function is smooth there).
+XPROGS = [
+    dict(name="pow-learnable-exponent", leaves=[["x", [2]], ["y", [2]], ["p", []]], body="v1 = mg.exp(x) ** p\nv2 = v1 * y + p\nout = v2",
+         ref_body="out = np.power(np.exp(x), p) * y + p", smooth_at_ties=True, seed="none"),
+    dict(name="pow-exponent-diamond", leaves=[["x", [2]], ["p", []]], body="a = mg.exp(x)\nv1 = a ** p\nv2 = a ** (p * 1.0)\nout = v1 * v2 + mg.sum(p)",
+         ref_body="a = np.exp(x)\nout = np.power(a, p) * np.power(a, p * 1.0) + p", smooth_at_ties=True, seed="none"),
+    dict(name="pow-vector-exponent", leaves=[["x", [2]], ["p", [2]]], body="out = (mg.exp(x) ** p) * p",
+         ref_body="out = np.power(np.exp(x), p) * p", smooth_at_ties=True, seed="none"),
+    dict(name="pow-0d-base-0d-exponent", leaves=[["x", []], ["p", []], ["y", [2]]], body="out = (mg.exp(x) ** p) * y",
+         ref_body="out = np.power(np.exp(x), p) * y", smooth_at_ties=True, seed="none"),
+]
 
 
 def run_prog_case(spec, tier, mg):
@@ -448,6 +465,10 @@ def run_case(spec, tier):
     mg = common._WORKER["mg"]
     if spec["kind"] == "dag":
         return run_dag_case(spec, tier, mg)
+    if spec["kind"] == "xprog":
+        r = gradcase.run(dict(spec["spec"], name=spec["name"]), tier, PROP, mg, max_paths=200, max_seconds=120, timeout_ms=8000, skip_ties=False)
+        r["programs"] = 1
+        return r
     return run_prog_case(spec, tier, mg)
 
 
